@@ -68,7 +68,7 @@ theorem recv_blocked (c : Cfg) (hw : WF c) (s : St) (hA : InvA c s) (h : en c s 
 /-- where the sender can be stuck -/
 theorem send_blocked (c : Cfg) (hw : WF c) (s : St) (h : en c s .send = false) :
     (s.send = .peek ∧ s.sh.outR.done = false ∧ s.sh.outR.buf = 0) ∨
-    (∃ m, s.send = .write m ∧ s.sh.sock = .open ∧ s.sh.peerReads = false) ∨
+    (∃ m, s.send = .write m ∧ s.sh.sock.wfail = false ∧ s.sh.peerReads = false) ∨
     s.send = .exited := by
   rw [en_send] at h
   cases hpc : s.send with
@@ -85,7 +85,7 @@ theorem send_blocked (c : Cfg) (hw : WF c) (s : St) (h : en c s .send = false) :
     right; left
     rw [hpc] at h
     simp only [sstep] at h
-    by_cases h1 : s.sh.sock ≠ .open
+    by_cases h1 : s.sh.sock.wfail = true
     · simp [h1] at h
     · by_cases h2 : s.sh.peerReads = true
       · simp [h1, h2] at h
@@ -556,7 +556,8 @@ theorem ks_length_step (c : Cfg) (s s' : St) (l : Label) (h : step c s l = some 
   | env e =>
     simp only [step] at h
     cases e with
-    | peerClose => simp only [estep] at h; by_cases h1 : s.sh.sock = .open <;> simp [h1] at h; subst h; simp
+    | peerClose => simp only [estep] at h; by_cases h1 : s.sh.sock = .open ∨ s.sh.sock = .peerShut <;> simp [h1] at h; subst h; simp
+    | peerShut => simp only [estep] at h; by_cases h1 : s.sh.sock = .open <;> simp [h1] at h; subst h; simp
     | kaExpire =>
       simp only [estep] at h
       by_cases h1 : s.recv = .read ∧ s.sh.sock = .open
